@@ -35,7 +35,8 @@ LEVEL_NOTE = 'Trusted: html.parser and the 80-line report model. Sampling only.'
 TECHNIQUE = 'Hypothesis generated sources/match sets, HTML re-parsing oracle (round trip to source lines), in-process plus subprocess sample'
 
 ALLOWED_TAGS = {'a', 'h3', 'table', 'tr', 'td', 'span', 'br'}
-HOSTILE = ['a\nb', '<', '>', '&', '"', '"><script>alert(1)</script>', '</span>', '<br>', '&amp;', '&lt;', "'", ' ', 'x', 'Fehler', 'é']
+HOSTILE = ['a\nb', '<', '>', '&', '"', '"><script>alert(1)</script>', '</span>', '<br>', '&amp;', '&lt;', "'", ' ', 'x', 'Fehler', 'é',
+           '%', '50% of', '%s', '%%', '\\', '\\1', '\\dots', '\\g<1>']
 SRC = ['a', 'b', 'Wort', ' ', ' ', '\n', '\n', '\t', '<', '>', '&', '"', "'", '\\', '{', '}', '%', '&amp;', '<b>', '</td>', '\\textbf', 'é',
        'x' * 40, '\n\n', '<br>', '  ', '\x0c', '\u2028', '\x0b', '\x85', '\x1c', '\\%', '\\&', '\\subsubsection']
 src_s = st.lists(st.sampled_from(SRC), min_size=1, max_size=30).map(''.join)
